@@ -30,7 +30,18 @@ def dataclass_to_dict(obj: Any) -> Any:
 
 def format_colang_parsing_error_message(exception, colang_content):
     """Improves readability of Colang error messages."""
-    line = colang_content.splitlines()[exception.line - 1]
+    # NOTE: not every exception carries a usable position (e.g., a `DedentError` has no
+    # "line" attribute, an unexpected end of input has `line=None`); in that case we
+    # can only report the exception itself.
+    lines = colang_content.splitlines()
+    line_number = getattr(exception, "line", None)
+    if not isinstance(line_number, int) or not 1 <= line_number <= len(lines):
+        return f"{exception}"
+
+    line = lines[line_number - 1]
     # NOTE: for Colang 1.0 parsing exceptions, there is no "column" attribute.
-    marker = " " * (getattr(exception, "column", 1) - 1) + "^"
+    column = getattr(exception, "column", 1)
+    if not isinstance(column, int) or column < 1:
+        column = 1
+    marker = " " * (column - 1) + "^"
     return f"{exception}:\n{line}\n{marker}"
